@@ -14,7 +14,7 @@
 (*             max  : dynamic-macro-max-presses,                           *)
 (*             recorded : BOOLEAN (replay delay behaviour),                *)
 (*             red  : rapid-event-delay (default 5),                       *)
-(*             gcap : cap of the recorded gaps (> T + Margin, or 0 when   *)
+(*             gcap : cap of the recorded gaps (>= 2 and > T, or 0 when    *)
 (*                    no gap is ever read) ]                              *)
 (*                                                                         *)
 (* Two independent parts:                                                  *)
@@ -52,7 +52,7 @@
 EXTENDS Obs
 Ref == INSTANCE P_C04
 
-Margin == 1          \* pacing slack around a tap-hold timeout (ticks)
+EndCost == 5         \* after the end of a nested macro the replay pauses 5 ticks in both behaviours (Appendix A)
 ConstPace == 5       \* `constant` replay delay behaviour: one event per 5 ticks (Appendix A)
 
 Lookup(tab, c) == LET I == {i \in DOMAIN tab : tab[i].c = c} IN
@@ -71,6 +71,8 @@ MonInit(p) ==
     mac |-> <<>>,      \* stored macros Seq([id, evs, rel, late]); rel = keys still down (released at the end, any order)
     lastSaved |-> 0 - 1,   \* id saved by the latest control key press (-1: none)
     repLate |-> FALSE, \* the expected replay involves a macro marked late
+    anch |-> 0 - 1,    \* pacing of the replay: schedule offset of the first timed output seen (-1 none yet, -2 not judged)
+    rclk |-> 0,        \* stepper calls since that output
     exp |-> <<>>,      \* expected OS events not yet seen: <<"o", ev>> in order | <<"s", set of release events>>
     replaying |-> FALSE, budget |-> 0,
     mode |-> "sync",   \* "sync" | "lost" (soft zone: wait for the next quiescent point)
@@ -92,8 +94,11 @@ MacHas(mac, id) == \E i \in DOMAIN mac : mac[i].id = id
 MacGet(mac, id) == mac[CHOOSE i \in DOMAIN mac : mac[i].id = id]
 MacPut(mac, e) == SelectSeq(mac, LAMBDA x : x.id # e.id) \o <<e>>
 SaveMac(m, id, evs, late) ==
-  [m EXCEPT !.mac = MacPut(@, [id |-> id, evs |-> evs, rel |-> StillDown(evs), late |-> late]), !.lastSaved = id]
-NewRec(id) == [id |-> id, evs |-> <<>>, late |-> FALSE]
+  [m EXCEPT !.mac = MacPut(@, [id |-> id, evs |-> evs, rel |-> StillDown(evs), late |-> late,
+                               gu |-> m.rec # <<>> /\ m.rec[1].gu]), !.lastSaved = id]
+\* gu: the gaps of this recording are not known in ticks (a replay ran meanwhile: with recorded delays one stepper
+\* call then executes several ticks)
+NewRec(id) == [id |-> id, evs |-> <<>>, late |-> FALSE, gu |-> FALSE]
 DropLast(s, n) == SubSeq(s, 1, IF Len(s) > n THEN Len(s) - n ELSE 0)
 
 UndOf(m) == IF m.stall > m.p.red + 1 THEN m.stall - (m.p.red + 1) ELSE 0
@@ -123,7 +128,8 @@ RecArrive(m0, isPress, c) ==
 
 RecTick(m) ==      \* the gap after the newest recorded event grows
   IF m.rec = <<>> \/ m.rec[1].evs = <<>> THEN m
-  ELSE LET n == Len(m.rec[1].evs) IN [m EXCEPT !.rec[1].evs[n].g = OMin(@ + 1, m.p.gcap)]
+  ELSE LET n == Len(m.rec[1].evs) IN [m EXCEPT !.rec[1].evs[n].g = OMin(@ + 1, m.p.gcap),
+                                               !.rec[1].gu = @ \/ m.replaying]
 
 \* other input arrives while a record / stop key press has not been processed yet: what that press
 \* started / saved is marked late
@@ -131,16 +137,17 @@ MarkLate(m) ==
   [m EXCEPT !.mac = [i \in DOMAIN m.mac |-> IF m.mac[i].id = m.lastSaved THEN [m.mac[i] EXCEPT !.late = TRUE] ELSE m.mac[i]],
             !.rec = IF m.rec = <<>> THEN <<>> ELSE <<[m.rec[1] EXCEPT !.late = TRUE]>>,
             !.lateSeen = TRUE]
-Lose(m) == [m EXCEPT !.mode = "lost", !.exp = <<>>]
+Lose(m) == [m EXCEPT !.mode = "lost", !.exp = <<>>, !.anch = 0 - 1, !.rclk = 0]
 
 \* ------------------------------------------------------------------ (P) expected output
 \* the events a replay of macro `id` feeds, nested plays spliced in (never a macro that is already
-\* being replayed): [items, ok, n, late]; items: <<"e", ev>> | <<"s", set of codes to release>>
+\* being replayed): [items, ok, n, late, gu]; items: <<"e", ev>> | <<"s", set of codes to release>> |
+\* <<"m", 0>> the end of a nested macro (a pause, no event)
 RECURSIVE Expand(_, _, _, _)
 RECURSIVE ExpandEvs(_, _, _, _, _)
 Expand(p, mac, id, active) ==
   LET e == MacGet(mac, id)
-      b == ExpandEvs(p, mac, e.evs, active, [items |-> <<>>, ok |-> TRUE, n |-> 1, late |-> e.late])
+      b == ExpandEvs(p, mac, e.evs, active, [items |-> <<>>, ok |-> TRUE, n |-> 1, late |-> e.late, gu |-> e.gu])
   IN IF e.rel = {} THEN b
      ELSE [b EXCEPT !.items = Append(@, <<"s", e.rel>>), !.n = @ + Cardinality(e.rel)]
 ExpandEvs(p, mac, evs, active, acc) ==
@@ -153,46 +160,53 @@ ExpandEvs(p, mac, evs, active, acc) ==
                THEN ExpandEvs(p, mac, Tail(evs), active, a1)          \* never into itself / nothing stored
                ELSE LET x == Expand(p, mac, ctl[1].n, active \cup {ctl[1].n}) IN
                     ExpandEvs(p, mac, Tail(evs), active,
-                              [items |-> a1.items \o x.items, ok |-> x.ok, n |-> a1.n + x.n, late |-> a1.late \/ x.late])
+                              [items |-> a1.items \o x.items \o <<<<"m", 0>>>>, ok |-> x.ok, n |-> a1.n + x.n,
+                               late |-> a1.late \/ x.late, gu |-> a1.gu \/ x.gu])
           ELSE IF ev.p /\ ctl # <<>>        \* a record / stop key inside a macro: not determined here
           THEN [a1 EXCEPT !.ok = FALSE]
           ELSE ExpandEvs(p, mac, Tail(evs), active, a1)
 
 KeysNow(ref) == Ref!KeysOf(ref.held)
-OutItems(evs) == [i \in 1..Len(evs) |-> <<"o", evs[i]>>]
+OutItems(evs, O) == [i \in 1..Len(evs) |-> <<"o", evs[i], O>>]
 RECURSIVE RelAll(_, _)
 RelAll(ref, S) == IF S = {} THEN ref
                   ELSE LET c == CHOOSE x \in S : TRUE IN
                        RelAll(Ref!ProcessEvent(ref, [p |-> FALSE, c |-> c]), S \ {c})
 
-\* the OS output of typing `items` from reference state `ref`: [ref, out, ok]
-RECURSIVE Typing(_, _, _)
-Typing(p, ref, items) ==
+\* Pacing (stepper calls; Appendix A): the replay hands one event per call to kanata with recorded delays (the
+\* recorded gap runs as extra ticks inside the call, so an event followed by a gap of 2 or more ticks shows its
+\* output in the call that handed it over, otherwise in the next one), one event per 5 calls with constant delays.
+EvCost(p) == IF p.recorded THEN 1 ELSE ConstPace
+EvLag(p, ev) == IF p.recorded /\ ev.g >= 2 THEN 0 ELSE 1
+
+\* the OS output of typing `items` from reference state `ref`: [ref, out, ok]; out items <<"o", event, O>> (O = the
+\* call offset at which it is due, -1 = not timed) | <<"s", set of release events>>.  F = offset of the next hand-over.
+RECURSIVE Typing(_, _, _, _, _)
+Typing(p, ref, items, F, timed) ==
   IF items = <<>> THEN [ref |-> ref, out |-> <<>>, ok |-> TRUE]
   ELSE LET it == Head(items) IN
-    IF it[1] = "s"
+    IF it[1] = "m" THEN Typing(p, ref, Tail(items), F + EndCost, timed)
+    ELSE IF it[1] = "s"
     THEN LET r1 == RelAll(ref, it[2])
              ups == {<<"u", k>> : k \in SeqToSet(KeysNow(ref)) \ SeqToSet(KeysNow(r1))}
-             t == Typing(p, r1, Tail(items))
+             t == Typing(p, r1, Tail(items), F + Cardinality(it[2]) * EvCost(p), timed)
          IN [t EXCEPT !.out = (IF ups = {} THEN <<>> ELSE <<<<"s", ups>>>>) \o @]
     ELSE LET ev == it[2]
              th == ThOf(p, ev.c) IN
       IF th # <<>>
-      THEN \* time-sensitive key: decided only when it is pressed and released with nothing in between
-           \* and the paced gap is clear of the timeout
+      THEN \* time-sensitive key: decided when it is pressed and released with nothing in between; the replay
+           \* reproduces the typed gap exactly (recorded) / uses its own pace (constant): tap before T ticks, else hold
            IF ev.p /\ Len(items) >= 2 /\ items[2][1] = "e" /\ ~items[2][2].p /\ items[2][2].c = ev.c
            THEN LET g == IF p.recorded THEN OMax(1, ev.g) ELSE ConstPace
-                    k == IF g + Margin < th[1].T THEN th[1].tap
-                         ELSE IF g > th[1].T + Margin THEN th[1].hold ELSE 0 - 1
-                    t == Typing(p, ref, Tail(Tail(items)))
-                IN IF k < 0 THEN [ref |-> ref, out |-> <<>>, ok |-> FALSE]
-                   ELSE [t EXCEPT !.out = <<<<"o", <<"d", k>>>>, <<"o", <<"u", k>>>>>> \o @]
+                    k == IF g < th[1].T THEN th[1].tap ELSE th[1].hold
+                    t == Typing(p, ref, Tail(Tail(items)), F + 2 * EvCost(p), timed)
+                IN [t EXCEPT !.out = <<<<"o", <<"d", k>>, 0 - 1>>, <<"o", <<"u", k>>, 0 - 1>>>> \o @]
            ELSE [ref |-> ref, out |-> <<>>, ok |-> FALSE]
       ELSE LET r1 == Ref!ProcessEvent(ref, [p |-> ev.p, c |-> ev.c])
                \* compared by the effect on the OS key state (a key held through two coordinates goes up once)
                o == Eff(Ref!ExpectedOut(KeysNow(ref), KeysNow(r1)), SeqToSet(KeysNow(ref))).eff
-               t == Typing(p, r1, Tail(items))
-           IN [t EXCEPT !.out = OutItems(o) \o @]
+               t == Typing(p, r1, Tail(items), F + EvCost(p), timed)
+           IN [t EXCEPT !.out = OutItems(o, IF timed THEN F + EvLag(p, ev) ELSE 0 - 1) \o @]
 
 \* a replay of macro n may start in kanata although the monitor does not follow it (soft zone): no calm
 \* before its time budget has passed
@@ -210,16 +224,19 @@ PlayArrive(m, isPress, c) ==
   IN IF m.mode = "lost" THEN (IF isPlay THEN PlayStart(m, ctl[1].n) ELSE m)
      ELSE IF ThOf(p, c) # <<>> THEN Lose(m)
      ELSE IF m.replaying
-     THEN IF ~isPress /\ ctl # <<>> THEN m ELSE Lose(IF isPlay THEN PlayStart(m, ctl[1].n) ELSE m)
-     ELSE LET one == Typing(p, m.ref, <<<<"e", [p |-> isPress, c |-> c, g |-> 0]>>>>)
+     \* (a typed event queued ahead of a replayed one delays it by a tick: the pacing of this replay is not judged)
+     THEN IF ~isPress /\ ctl # <<>> THEN [m EXCEPT !.anch = 0 - 2]
+          ELSE Lose(IF isPlay THEN PlayStart(m, ctl[1].n) ELSE m)
+     ELSE LET one == Typing(p, m.ref, <<<<"e", [p |-> isPress, c |-> c, g |-> 0]>>>>, 0, FALSE)
               m1 == [m EXCEPT !.ref = one.ref, !.exp = @ \o one.out]
           IN IF ~isPlay THEN m1
              ELSE IF m1.rec # <<>> /\ m1.rec[1].id = ctl[1].n THEN Lose(PlayStart(m1, ctl[1].n))       \* statement silent
              ELSE IF ~MacHas(m1.mac, ctl[1].n) THEN m1
              ELSE LET x == Expand(p, m1.mac, ctl[1].n, {ctl[1].n})
-                      t == Typing(p, m1.ref, x.items)
+                      t == Typing(p, m1.ref, x.items, 0, ~x.late /\ ~x.gu)
                   IN IF ~x.ok \/ ~t.ok THEN Lose(PlayStart(m1, ctl[1].n))
                      ELSE [m1 EXCEPT !.ref = t.ref, !.exp = @ \o t.out, !.replaying = TRUE, !.repLate = x.late,
+                                     !.anch = 0 - 1, !.rclk = 0,
                                      !.budget = ConstPace * (x.n + 1) + 10]
 
 \* r: input record [e, c, out]
@@ -248,17 +265,22 @@ MonIn(m, r) ==
                   !.ctlp = IF isCtlPress THEN OMax(wait, m.ctlp) ELSE m.ctlp,
                   !.lastIdle = FALSE]
 
-RECURSIVE Match(_, _)
-Match(exp, obs) ==      \* [exp, ok]
-  IF obs = <<>> THEN [exp |-> exp, ok |-> TRUE]
-  ELSE IF exp = <<>> THEN [exp |-> exp, ok |-> FALSE]
+\* [exp, ok, anch, tok]: tok = FALSE when a timed output is not on its call
+RECURSIVE Match(_, _, _, _)
+Match(exp, obs, anch, clk) ==
+  IF obs = <<>> THEN [exp |-> exp, ok |-> TRUE, anch |-> anch, tok |-> TRUE]
+  ELSE IF exp = <<>> THEN [exp |-> exp, ok |-> FALSE, anch |-> anch, tok |-> TRUE]
   ELSE LET h == Head(exp)
            e == Head(obs) IN
        IF h[1] = "o"
-       THEN IF h[2] = e THEN Match(Tail(exp), Tail(obs)) ELSE [exp |-> exp, ok |-> FALSE]
+       THEN IF h[2] # e THEN [exp |-> exp, ok |-> FALSE, anch |-> anch, tok |-> TRUE]
+            ELSE IF h[3] < 0 \/ anch = 0 - 2 THEN Match(Tail(exp), Tail(obs), anch, clk)
+            ELSE IF anch = 0 - 1 THEN Match(Tail(exp), Tail(obs), h[3], 0)
+            ELSE IF clk = h[3] - anch THEN Match(Tail(exp), Tail(obs), anch, clk)
+            ELSE [exp |-> exp, ok |-> TRUE, anch |-> anch, tok |-> FALSE]
        ELSE IF e \in h[2]
-            THEN Match((IF h[2] = {e} THEN <<>> ELSE <<<<"s", h[2] \ {e}>>>>) \o Tail(exp), Tail(obs))
-            ELSE [exp |-> exp, ok |-> FALSE]
+            THEN Match((IF h[2] = {e} THEN <<>> ELSE <<<<"s", h[2] \ {e}>>>>) \o Tail(exp), Tail(obs), anch, clk)
+            ELSE [exp |-> exp, ok |-> FALSE, anch |-> anch, tok |-> TRUE]
 
 MonTick(m, out, idle, cb) ==
   IF m.err # "" THEN m
@@ -290,8 +312,11 @@ MonTick(m, out, idle, cb) ==
             ELSE IF o.down # {} THEN Fail(m1, tag \o "a key is left down (kanata idle, no physical key held)")
             ELSE [m1 EXCEPT !.mode = "sync", !.exp = <<>>, !.replaying = FALSE, !.repLate = FALSE, !.budget = 0,
                             !.ref = Ref!MonInit(m.p.c04)]
-       ELSE LET x == Match(m.exp, o.eff) IN
-            IF ~x.ok
+       ELSE LET clk == IF m.anch >= 0 THEN OMin(m.rclk + 1, 500) ELSE 0
+                x == Match(m.exp, o.eff, m.anch, clk) IN
+            IF ~x.tok
+            THEN Fail(m1, tag \o "replay pacing differs from the recorded gaps / the constant pace")
+            ELSE IF ~x.ok
             THEN Fail(m1, IF m.replaying THEN tag \o "replay output differs from typing the recorded events again"
                           ELSE tag \o "output differs from the reference for typed keys")
             ELSE IF calm /\ pend = 0 /\ x.exp # <<>>
@@ -303,7 +328,9 @@ MonTick(m, out, idle, cb) ==
             THEN Fail(m1, tag \o "replay does not end")
             \* a replay that involved a late macro has ended: resynchronise at the next quiescent point
             ELSE IF m.replaying /\ repDone /\ m.repLate THEN Lose([m1 EXCEPT !.replaying = FALSE, !.repLate = FALSE, !.budget = 0])
-            ELSE [m1 EXCEPT !.exp = x.exp]
+            ELSE [m1 EXCEPT !.exp = x.exp,
+                            !.anch = IF repDone THEN 0 - 1 ELSE x.anch,
+                            !.rclk = IF repDone \/ x.anch < 0 THEN 0 ELSE IF m.anch < 0 THEN 0 ELSE clk]
 
 \* n silent ticks
 RECURSIVE MonSilent(_, _, _, _)
